@@ -105,11 +105,32 @@ def bdd_histories(pid, tier, seed):
         nvars = rng.choice([3, 3, 4, 4, 5, 6]) if pid not in ("C13", "C14") else rng.choice([3, 4, 4, 5, 6])
         tiny = rng.random() < 0.8
         cfg = random_cfg(rng, tiny)
-        g = BddGen(rng, nvars, cfg, weights=_q(FOCUS[pid]), malformed=0.02 if i % 5 else 0.15,
-                   maxvar_extra=(1 if rng.random() < 0.2 else 0))
+        family = "tiny" if tiny else "mid"
+        extra = 1 if rng.random() < 0.2 else 0
+        if i % 10 == 9:
+            # "wide" family: many variables (beyond what the truth-table oracles can follow: the exact comparison with the
+            # model is what checks these), large variable numbers, default-sized or large tables
+            family = "wide"
+            nvars = 6
+            extra = rng.choice([4, 10, 25, 60])
+            cfg = rng.choice(["default 12", "default 16", "default 17", "14 10 10", "16 16 12", "11 6 3"])
+        if i % 10 == 4:
+            # "deep" family: random functions over 8-10 variables (hundreds of nodes per diagram, handles in the hundreds and
+            # thousands): the truth-table oracles are off (they follow 6 variables), pointwise oracles and the exact
+            # comparison with the model take over
+            family = "deep"
+            nvars = rng.choice([8, 9, 10])
+            cfg = rng.choice(["12 4 3", "13 6 6", "default 13", "14 8 2", "default 16"])
+            extra = 0
+        g = BddGen(rng, nvars, cfg, weights=_q(FOCUS[pid]), malformed=0.02 if i % 5 else 0.15, maxvar_extra=extra)
+        if family == "deep":
+            for _ in range(4):
+                g.op_randfun()
+        if family == "wide":
+            g.wide_preamble(extra)
         ops = b["ops"] if tiny else b["ops"] * 2
         lines = g.run(ops)
-        yield ("gen-%s-%d" % (pid, i), lines, {"seed": hseed, "nvars": nvars, "cfg": cfg, "stats": dict(g.stats), "classes": dict(g.classes)})
+        yield ("gen-%s-%d" % (pid, i), lines, {"seed": hseed, "nvars": nvars, "cfg": cfg, "family": family, "stats": dict(g.stats), "classes": dict(g.classes)})
 
 
 def hash_pid(pid):
